@@ -20,11 +20,14 @@ package soy
 //@   pure
 //@   ensures[owns-a-fresh-globals-map] result != nil && fresh(result) && result.globals != nil && fresh(result.globals)
 //@ func (*Bundle).AddGlobalsMap
-//@   props C09
+//@   props C09 C13
 //@   nosafety
 //@   modifies b.err, b.globals[_]
 //@   ensures result == b
 //@   loop 0
+//@     bag names
+//@     invariant fresh(names)
+//@   loop 1
 //@     noterm
 //@ func (*Bundle).AddTemplateString
 //@   props C09
